@@ -101,6 +101,52 @@ Proof.
   - intro Hp. apply in_map_iff. exists p. split; [reflexivity|]. apply filter_In. split; [exact Hp|]. rewrite M. reflexivity.
 Qed.
 
+(* where-predicates: the split refines the declaration-order spec (so it is independent of the map order), no predicate is lost,
+   and a predicate lands on direct / play exactly when it mentions a private parameter *)
+Lemma mentions_private_ext : forall h1 h2 wp, (forall q, In q h1 <-> In q h2) -> mentions_private h1 wp = mentions_private h2 wp.
+Proof.
+  intros h1 h2 wp H. unfold mentions_private. apply eq_true_iff_eq. rewrite !existsb_exists.
+  split; intros [q [Hi He]]; exists q; split; auto; apply H; auto.
+Qed.
+
+Lemma retained_is_unused : forall params ms hm0 q, Permutation hm0 (filter nonconst params) ->
+  (In q (fold_left (step_retain self_ty) ms hm0) <-> In q (unused params self_ty ms)).
+Proof.
+  intros params ms hm0 q P. rewrite fold_retain_In. unfold unused. rewrite filter_In, andb_true_iff, negb_true_iff.
+  assert (In q hm0 <-> In q (filter nonconst params)) as E
+    by (split; intro H; [eapply Permutation_in; eauto | eapply Permutation_in; [apply Permutation_sym; eauto | auto]]).
+  rewrite E, filter_In. tauto.
+Qed.
+
+Theorem where_preds_spec : forall params ms hm0 preds, Permutation hm0 (filter nonconst params) ->
+  impl_private_preds params self_ty hm0 ms preds = spec_private_preds params self_ty ms preds /\
+  impl_script_preds params self_ty hm0 ms preds = spec_script_preds params self_ty ms preds.
+Proof.
+  intros params ms hm0 preds P. unfold impl_private_preds, impl_script_preds, spec_private_preds, spec_script_preds.
+  destruct (full ms); [split; reflexivity|].
+  assert (forall wp, mentions_private (fold_left (step_retain self_ty) ms hm0) wp = mentions_private (unused params self_ty ms) wp) as E
+    by (intro wp; apply mentions_private_ext; intro q; apply retained_is_unused; exact P).
+  split; apply filter_ext; intro wp; rewrite E; reflexivity.
+Qed.
+
+Theorem where_preds_none_lost : forall params ms preds wp, In wp preds ->
+  (In wp (spec_private_preds params self_ty ms preds) /\ ~ In wp (spec_script_preds params self_ty ms preds)) \/
+  (In wp (spec_script_preds params self_ty ms preds) /\ ~ In wp (spec_private_preds params self_ty ms preds)).
+Proof.
+  intros params ms preds wp H. unfold spec_private_preds, spec_script_preds. destruct (full ms).
+  - right. split; [exact H | intros []].
+  - rewrite !filter_In. destruct (mentions_private (unused params self_ty ms) wp); simpl.
+    + left. split; [tauto | intros [_ K]; discriminate].
+    + right. split; [tauto | intros [_ K]; discriminate].
+Qed.
+
+Theorem where_pred_private_iff : forall params ms preds wp, full ms = false ->
+  (In wp (spec_private_preds params self_ty ms preds) <->
+   In wp preds /\ exists p, In p (unused params self_ty ms) /\ includes wp p = true).
+Proof.
+  intros params ms preds wp F. unfold spec_private_preds. rewrite F, filter_In. unfold mentions_private. rewrite existsb_exists. tauto.
+Qed.
+
 End WithSelfTy.
 
 (* the code before fix fdc5b8f did depend on the iteration order (defect F2) *)
@@ -153,3 +199,15 @@ Proof.
          [{| gp_kind := KType; gp_name := "T"%string |}].
   split; [apply Permutation_refl | vm_compute; discriminate].
 Qed.
+
+(* impl<T, U> A<T, U> where U: Default, T: From<U>, T: Clone { fn get(&self, t: T) }: U is private; both predicates that mention U
+   follow it onto direct / play, `T: Clone` stays on the Script impl *)
+Example where_preds_example :
+  let p k n := {| gp_kind := k; gp_name := n |} in
+  let params := [p KType "T"; p KType "U"]%string in
+  let ms := [ {| m_kind := MRef; m_localgen := false; m_sig := ["fn"; "get"; "("; "&"; "self"; ","; "t"; ":"; "T"; ")"]%string |} ] in
+  let preds := [["U"; ":"; "Default"]; ["T"; ":"; "From"; "<"; "U"; ">"]; ["T"; ":"; "Clone"]]%string in
+  impl_private_preds params ["A"; "<"; "T"; ","; "U"; ">"]%string [p KType "U"; p KType "T"]%string ms preds
+    = [["U"; ":"; "Default"]; ["T"; ":"; "From"; "<"; "U"; ">"]]%string /\
+  impl_script_preds params ["A"; "<"; "T"; ","; "U"; ">"]%string [p KType "U"; p KType "T"]%string ms preds = [["T"; ":"; "Clone"]]%string.
+Proof. split; reflexivity. Qed.
